@@ -129,6 +129,13 @@ def sequence_cut(exe, st, caller, callee, cut, node):
     key = '$cut:%s:%s' % (caller, callee)
     k = st.ghost.get(key, 0)
     st.ghost[key] = k + 1
+    if cut.get('sequential'):
+        # gap-free layout: the position after the call is the position of the last recorded copy plus its length
+        ev = (st.ghost.get('$blob') or (None,))[-1]
+        pos = eval_clauses(exe, {'p': cut['sequential']}, st, caller, raw=True)[0][1]
+        if ev is None:
+            raise FrontEndError('sequence cut in %s: no copy recorded before the cut' % caller)
+        exe.emit('%s/cut(%s)#%d/advances_by_bytes_copied' % (caller, callee, k), pos == ev['buf_off'] + ev['nbytes'], st, kind='inv')
     inv = cut['invariant_at'](k) if 'invariant_at' in cut else cut.get('invariant', {})
     if inv is None:
         return
